@@ -309,7 +309,7 @@ func c11Run(c c11Case, r *hx.Rec) error {
 func TestC11(t *testing.T) {
 	begin(t, "C11")
 	hx.Assume("reference canonical JSON written from the OLPC specification; encoding/json is the independent 'any JSON parser'")
-	hx.Assume("integers are generated within ±2^53 (what a float64 loaded from a file holds exactly); larger integral values are not asserted")
+	hx.Assume("integers are drawn from the whole int64 range (small ones, +-2^53 neighbours, the int64 limits); non-integral numbers must be refused")
 	hx.Check[c11Case]{
 		Property: "C11", Part: "canonical",
 		Rule:  "rapid-generated links/layouts (all members nil/empty/populated, strings with quotes, backslashes, controls, non-ASCII, nested by-products) x re-serialisation style x optional one-leaf mutation; non-trivial = a string needing escape or non-ASCII, a non-integral number, or a one-field-difference pair; distinct by canonical case JSON",
